@@ -8,6 +8,7 @@ import (
 	"pgregory.net/rapid"
 
 	m "verif/model"
+	"verif/ref"
 )
 
 type ProgOpt struct {
@@ -36,6 +37,7 @@ type G struct {
 	names []string
 	label int
 	Stats map[string]int
+	Ovs   []ref.FunSig // registered overloads of "ov" (C05)
 }
 
 func NewG(t *rapid.T, o ProgOpt) *G {
@@ -569,6 +571,9 @@ func (g *G) expr(want *m.Type, fuel int) *m.Expr {
 		add(3, func() *m.Expr { return m.Infix("+", g.expr(m.Str, fuel-1), g.expr(m.Str, fuel-1)) })
 		if !g.O.NoStringOf {
 			add(2, func() *m.Expr { g.stat("string()"); return g.call("string", g.expr(g.anyType(3), fuel-1)) })
+		}
+		if g.Ovs != nil {
+			add(5, func() *m.Expr { return g.OvCall(fuel) })
 		}
 	case m.TBool:
 		add(2, func() *m.Expr { return g.literal(m.Bool, 0) })
